@@ -186,6 +186,9 @@ class Contract:
             elif isinstance(ty, TOpt) and cur is not None and cur.ty == TNoneLit:
                 widened = widened or dict(st.env)
                 widened[nm] = ty.none()
+            elif isinstance(ty, TOpt) and cur is not None and isinstance(cur.ty, TEmpty) and hasattr(ty.elem, "empty"):
+                widened = widened or dict(st.env)
+                widened[nm] = Val(ty, ty.some(ty.elem.empty().t))
         if widened is not None:
             env = widened
         if st.old:
